@@ -867,10 +867,12 @@ def linear_contexts(run, node, spelled, arg, want, i, which):
     """`<prefix> <op> <arg> <suffix>` must compile to compile(prefix) + op bytes +
     compile(suffix): the op is recognised as an op after every form of push."""
     for pre, suf in LINEAR:
-        a = node.call('compile', pre)
+        # (the one-symbol forms look ahead, so the prefix is compiled with an op after it)
+        a = node.call('compile', pre + ' true')
         b = node.call('compile', suf) if suf else ['ok', b'']
-        if a[0] != 'ok' or b[0] != 'ok':
+        if a[0] != 'ok' or b[0] != 'ok' or a[1][-1:] != b'\x01':
             continue
+        a = ['ok', a[1][:-1]]
         r = node.call('compile', ' '.join(x for x in (pre, spelled, arg, suf) if x))
         if not run.check('op_recognised_after_a_push', r == ['ok', a[1] + want + b[1]],
                          'C20/one_bytecode/%s_after_short_push/%s' % (
